@@ -73,6 +73,15 @@ pub fn replay(args: &[String], out: &mut Out) {
                 if !eq(ids_bytes(txin.issuance_ids())) {
                     bad.push((format!("C11/txin/ids/{}", cls), "TxIn::issuance_ids differs from the derivation".into()));
                 }
+                // representation 1b: the same input after a trip through the consensus codec (ids derive from the plain index there too)
+                // (the null index carries no flag bits on the wire, so an issuance attached to it has no encoding: in-memory only)
+                if !collides && inp["base"] != "null" {
+                    let enc = elements::encode::serialize(&Transaction { version: 2, lock_time: elements::LockTime::ZERO, input: vec![txin.clone()], output: vec![] });
+                    match elements::encode::deserialize::<Transaction>(&enc) {
+                        Ok(t) => if !eq(ids_bytes(t.input[0].issuance_ids())) { bad.push((format!("C11/txin-decoded/ids/{}", cls), "ids of the decoded input differ from the derivation".into())); },
+                        Err(e) => bad.push((format!("C11/txin-decoded/decode-error/{}", cls), e.to_string())),
+                    }
+                }
                 // representation 2: pset::Input built from it
                 let pin = elements::pset::Input::from_txin(txin.clone());
                 if pin.previous_output_index != stored {
@@ -104,6 +113,23 @@ pub fn replay(args: &[String], out: &mut Out) {
                         }
                     }
                     Err(e) => bad.push((format!("C11/extract-error/{}", cls), e.to_string())),
+                }
+                // a blinder commits the issuance amount in the PSET and keeps the explicit field (Issuance.AddCommitment):
+                // the issuance is now a blinded one in the PSET view and in the extracted transaction
+                if inp["amount"] == "expl" && !collides {
+                    let want_tb = eval(&c["token_both"], &ctx);
+                    let eqb = |got: ([u8; 32], [u8; 32])| got.0[..] == want.0[..] && got.1[..] == want_tb[..];
+                    let mut p2 = Pset::from_tx(tx.clone());
+                    p2.inputs_mut()[0].issuance_value_comm = pools::conf_value(&mut r).commitment();
+                    if p2.inputs()[0].issuance_value_amount.is_none() { bad.push((format!("C11/pset-both/amount-field-lost/{}", cls), String::new())); }
+                    if !eqb(ids_bytes(p2.inputs()[0].issuance_ids())) { bad.push((format!("C11/pset-both/pset-input-ids/{}", cls), "amount and commitment both present: the issuance is blinded".into())); }
+                    match p2.extract_tx() {
+                        Ok(t3) => {
+                            if !t3.input[0].asset_issuance.amount.is_confidential() { bad.push((format!("C11/pset-both/extracted-amount-not-the-commitment/{}", cls), String::new())); }
+                            if !eqb(ids_bytes(t3.input[0].issuance_ids())) { bad.push((format!("C11/pset-both/extracted-ids/{}", cls), "extracted input and PSET input disagree on the ids".into())); }
+                        }
+                        Err(e) => bad.push((format!("C11/pset-both/extract-error/{}", cls), e.to_string())),
+                    }
                 }
                 // the derivation functions themselves
                 let op = OutPoint::new(Txid::from_byte_array(txid_b), plain);
